@@ -4,10 +4,10 @@
 # builds with all features, the pinned suite passes (90), and the demo fails.  Prints a JSON summary.
 set -u
 NAME="$1"; SRC="$2"
-WT=/tmp/confirm/$NAME
-rm -rf "$WT"; mkdir -p /tmp/confirm
+WT=/tmp/confirm/wt    # fixed path + shared target dir: dependencies are compiled once per session
+git -C /repo worktree remove --force "$WT" 2>/dev/null; rm -rf "$WT"; mkdir -p /tmp/confirm
 git -C /repo worktree add -q --detach "$WT" HEAD || exit 2
-export CARGO_NET_OFFLINE=true CARGO_TARGET_DIR=$WT/target
+export CARGO_NET_OFFLINE=true CARGO_TARGET_DIR=/tmp/confirm/target
 cd "$WT"
 mkdir -p tests; cp "$SRC/mutant_demo.rs" tests/mutant_demo.rs
 base_demo=$(cargo test --offline --all-features --test mutant_demo 2>&1 | grep -E "^test result" | tail -1)
